@@ -12,7 +12,7 @@ from ..alg import Sym, is_zero, Unsupported, PathRaised
 from .C09 import decide
 
 EM = "typhon/physics/em.py"
-EXPECT = {"C08.forms": 3, "C08.inverse": 2, "C08.ratio": 1, "C08.units": 8, "C08.perunit": 14, "C08.snell": 3, "C08.dtype": 1, "C08.pure": 19,
+EXPECT = {"C08.args": 6, "C08.forms": 3, "C08.inverse": 2, "C08.ratio": 1, "C08.units": 8, "C08.perunit": 14, "C08.snell": 3, "C08.dtype": 1, "C08.pure": 19,
           "C08.fresnel0": 1, "C08.brewster": 2, "C08.total": 1}
 
 
@@ -422,3 +422,6 @@ def run(ctx):
     ctx.attempt(rule_pure, ctx, "C08.pure", [(EM, n) for n in CONV + ["planck", "planck_wavelength", "planck_wavenumber", "rayleighjeans",
                 "rayleighjeans_wavelength", "radiance2planckTb", "radiance2rayleighjeansTb", "perfrequency2perwavelength", "perwavelength2perfrequency",
                 "perfrequency2perwavenumber", "perwavenumber2perfrequency", "snell", "fresnel"]])
+    # the caller's arguments (arrays, filter / fill dictionaries) are not modified: an in-place update makes the next call on the same objects wrong
+    from ..purity import rule_pure as _rule_args
+    ctx.attempt(_rule_args, ctx, "C08.args", [('typhon/physics/em.py', 'planck'), ('typhon/physics/em.py', 'snell'), ('typhon/physics/em.py', 'fresnel'), ('typhon/physics/em.py', 'radiance2planckTb'), ('typhon/physics/em.py', 'perfrequency2perwavelength'), ('typhon/physics/em.py', 'perwavelength2perfrequency')], "the caller's arguments are not modified in place")
